@@ -328,6 +328,10 @@ class ForceMatrix:
         if removed_index is not None:
             xres = np.insert(xres, removed_index, 1.)
 
+        # interfaces excluded from this solve carry no inferred tension (not the value of an earlier solve)
+        for big_edge in self.frame.internal_big_edges:
+            for e in big_edge.edges:
+                self.frame.edges[e].tension = 0
         for index, element in enumerate(self.big_edges_to_use):
             edges_to_use = [list(set(self.frame.vertices[element[vid]].ownEdges) & 
                             set(self.frame.vertices[element[vid+1]].ownEdges))[0]
